@@ -78,6 +78,7 @@ macro_rules! dispatch {
         match $id {
             "C10" => $f::<crate::c10::C10>($($arg),*),
             "C12" => $f::<crate::c12::C12>($($arg),*),
+            "C16" => $f::<crate::c16::C16>($($arg),*),
             other => {
                 eprintln!("unknown or unclaimed property id '{}'", other);
                 2
@@ -86,7 +87,7 @@ macro_rules! dispatch {
     };
 }
 
-pub const CLAIMED: &[&str] = &["C10", "C12"];
+pub const CLAIMED: &[&str] = &["C10", "C12", "C16"];
 
 // ------------------------------------------------------------------------------- worker
 
@@ -414,6 +415,57 @@ fn check_impl<S: Scenario>(id: &str, tier: Tier) -> i32 {
         Tier::Quick => 900,
         Tier::Thorough => 3 * 3600,
     });
+    // regression plans of repaired defects are re-executed first, each in a fresh process
+    let mut regression_hits: Vec<(PathBuf, String)> = Vec::new();
+    let mut regressions_run = 0u64;
+    if let Ok(rd) = std::fs::read_dir(verif_dir().join("regressions")) {
+        let mut files: Vec<PathBuf> = rd
+            .flatten()
+            .map(|e| e.path())
+            .filter(|p| {
+                p.file_name()
+                    .and_then(|n| n.to_str())
+                    .map(|n| n.starts_with(&format!("{}-", id)) && n.ends_with(".json"))
+                    .unwrap_or(false)
+            })
+            .collect();
+        files.sort();
+        let exe = std::env::current_exe().expect("current_exe");
+        for f in files {
+            regressions_run += 1;
+            match Command::new(&exe).arg("replay").arg(&f).stdin(Stdio::null()).output() {
+                Ok(out) => {
+                    let text = String::from_utf8_lossy(&out.stdout).to_string();
+                    match out.status.code() {
+                        Some(0) => {}
+                        Some(1) => {
+                            let sig = text
+                                .lines()
+                                .find_map(|l| l.strip_prefix("signature="))
+                                .unwrap_or("?")
+                                .to_string();
+                            regression_hits.push((f.clone(), sig));
+                        }
+                        _ => {
+                            if id == "C20" && out.status.code().is_none() {
+                                regression_hits.push((f.clone(), "abort".into()));
+                            } else {
+                                eprintln!(
+                                    "harness error: regression replay {} failed to run",
+                                    f.display()
+                                );
+                                return 2;
+                            }
+                        }
+                    }
+                }
+                Err(e) => {
+                    eprintln!("harness error: cannot run regression replay: {}", e);
+                    return 2;
+                }
+            }
+        }
+    }
     let spawned = spawn_workers(id, tier, seed, total, 0, workers, &dir, "w", false);
     let results = collect(spawned, cap);
 
@@ -528,6 +580,8 @@ fn check_impl<S: Scenario>(id: &str, tier: Tier) -> i32 {
         "tripwire": tripwire(),
         "known_findings_hit": known_lines.len(),
         "distinct_violation_signatures": unknown.len(),
+        "regression_plans_replayed": regressions_run,
+        "regression_plans_failing": regression_hits.len(),
     });
     let extra = S::extra_coverage(tier);
     if let (Some(c), Some(e)) = (coverage.as_object_mut(), extra.as_object()) {
@@ -543,7 +597,7 @@ fn check_impl<S: Scenario>(id: &str, tier: Tier) -> i32 {
         "coverage": coverage,
         "assumptions": S::assumptions(),
         "wall_s": wall,
-        "violations": unknown.len(),
+        "violations": unknown.len() + regression_hits.len(),
     });
     let evdir = verif_dir().join("evidence");
     let _ = std::fs::create_dir_all(&evdir);
@@ -577,9 +631,16 @@ fn check_impl<S: Scenario>(id: &str, tier: Tier) -> i32 {
         eprintln!("harness error: {} of {} units executed", units_done, total);
         return 2;
     }
+    for (f, sig) in &regression_hits {
+        println!("  regression of a repaired defect returned: {}", sig);
+        println!("VIOLATION property={} replay={}", id, f.display());
+    }
     if unknown.is_empty() {
-        println!("[{}] property held on everything explored", id);
-        return 0;
+        if regression_hits.is_empty() {
+            println!("[{}] property held on everything explored", id);
+            return 0;
+        }
+        return 1;
     }
 
     // ---- minimise, write replay files, verify replay in a fresh process, report
